@@ -345,6 +345,7 @@ pub fn cases(seed: u64, tier: Tier) -> (Cases, serde_json::Value) {
         let val = random_val(&mut rng, &ty, width);
         one_value(&mut cs, &format!("seeded:depth{}", d), &ty, &val, &mut hist);
     }
+    crate::ops::c02::c01_generated(&mut cs, &mut rng, tier);
     (cs, serde_json::json!({ "entry_points_hit": hist }))
 }
 
